@@ -10,9 +10,9 @@ patch=$D/patch.diff
 [ -f $D/patch.rebased.diff ] && patch=$D/patch.rebased.diff
 clean() { git -C $WT checkout -q -- . ; git -C $WT clean -fdq -e target; }
 clean
-case $P in
- C02|C10) WITH="with"; WITHOUT="without"; SELF=1;;
- C11) WITH="patched"; WITHOUT="clean"; SELF=1;;
+case $P-$V in
+ C02-[AB]|C10-[AB]) WITH="with"; WITHOUT="without"; SELF=1;;
+ C11-[AB]) WITH="patched"; WITHOUT="clean"; SELF=1;;
  *) SELF=0;;
 esac
 # 1. suite with patch
